@@ -18,7 +18,7 @@ from pvm.gen import mdg as gm
 from pvm.gen import c26_nonmatching as nm
 
 PROP = "C27"
-N = {"quick": 70, "thorough": 4000}
+N = {"quick": 50, "thorough": 4000}
 WORKERS = {"quick": 4, "thorough": 16}
 TIMEOUT = {"quick": 300, "thorough": 1800}
 CASE_TIMEOUT = 90.0
@@ -44,8 +44,8 @@ REACH_LINES = [
     ("numerics/ad/grid_operators.py", "mat_loc = sps.csr_matrix((0, tot_num_faces))"),
 ]
 REQUIRED = {"subdomain_projection_matrices": 400, "mortar_projection_matrices": 400,
-            "boundary_projection_matrices": 100, "nonconforming_mortar_objects": 5,
-            "rounds_nd2": 10, "rounds_nd3": 10, "permuted_lists": 50,
+            "boundary_projection_matrices": 100, "nonconforming_mortar_objects": 3,
+            "rounds_nd2": 10, "rounds_nd3": 10, "permuted_lists": 20,
             "interface_with_unlisted_subdomain": 10}
 ASSUMPTIONS = [
     "the per-interface matrices MortarGrid.*_to_*_{int,avg}(1) and BoundaryGrid.projection(1) "
